@@ -11,7 +11,7 @@ EXPLANATION = (
     '(R9.4) a public wrapper returns or tests the result of the internal setter it calls. Equivalence with an abstract '
     'store over all call sequences is behavioural and NOT decided.')
 
-MUTATORS = ['cfg_opt_setnint', 'cfg_opt_setnfloat', 'cfg_opt_setnbool', 'cfg_opt_setnstr', 'cfg_setnint', 'cfg_setnfloat', 'cfg_setnbool',
+MUTATORS = ['cfg_opt_getval', 'cfg_opt_setnint', 'cfg_opt_setnfloat', 'cfg_opt_setnbool', 'cfg_opt_setnstr', 'cfg_setnint', 'cfg_setnfloat', 'cfg_setnbool',
             'cfg_setnstr', 'cfg_setint', 'cfg_setfloat', 'cfg_setbool', 'cfg_setstr', 'cfg_setlist', 'cfg_addlist', 'cfg_opt_setmulti', 'cfg_setmulti',
             'cfg_addtsec', 'cfg_opt_rmnsec', 'cfg_rmnsec', 'cfg_opt_rmtsec', 'cfg_rmtsec', 'cfg_rmsec', 'cfg_opt_setcomment', 'cfg_setcomment']
 RESET = 64
@@ -117,25 +117,7 @@ def run(c, chk):
     chk.floor('R9.5 removing paths', nrm, 1)
 
     # ---- R9.3 --------------------------------------------------------------------------------
-    sites = {}
-    for f in c.confuse.funcs.values():
-        if not any(True for _ in f.calls('strcasecmp')):
-            continue
-        for p in ex.explore(f):
-            for e in p.events:
-                if e.kind == 'call' and e.name == 'strcasecmp':
-                    if not any(sym.render(a).endswith('->title') for a in e.args):
-                        continue
-                    word = None
-                    for cn, t, _ in p.assume[:e.seq]:
-                        d = pm.describe_cond(cn)
-                        if d.endswith('->flags has NOCASE') and t:
-                            base = cn[2][2][1] if cn[2][0] == 'bin' else None
-                            # address of the flags word: ('fld', base, struct, 'flags')
-                            a = find_flags_addr(cn)
-                            if a is not None:
-                                word = a[2]
-                    sites.setdefault(f.name, set()).add(word)
+    sites = title_sites(c, ex)
     # the merge site used by the parser ("a repeated title replaces that section in place") must fold case
     # like option names do: according to the context's flags
     if 'cfg_t' not in sites.get('cfg_setopt', set()):
@@ -173,6 +155,28 @@ def run(c, chk):
                     chk.fail('R9.4', 'dropped-result:%s:%s' % (fname, n_), c.where(call),
                              '%s() ignores the result of %s() and reports success regardless' % (fname, n_))
     chk.floor('R9.4 wrapper call sites', nw, 15)
+
+
+def title_sites(c, ex):
+    """{function: set of struct names whose flags word decides case folding of a title comparison}"""
+    sites = {}
+    for f in c.confuse.funcs.values():
+        if not any(True for _ in f.calls('strcasecmp')):
+            continue
+        for p in ex.explore(f):
+            for e in p.events:
+                if e.kind == 'call' and e.name == 'strcasecmp':
+                    if not any(sym.render(a).endswith('->title') for a in e.args):
+                        continue
+                    word = None
+                    for cn, t, _ in p.assume[:e.seq]:
+                        d = pm.describe_cond(cn)
+                        if d.endswith('->flags has NOCASE') and t:
+                            a = find_flags_addr(cn)
+                            if a is not None:
+                                word = a[2]
+                    sites.setdefault(f.name, set()).add(word)
+    return sites
 
 
 def plus1(i):
